@@ -705,6 +705,39 @@ func (r *runner) observe(n *core.Node, res *core.BlockResult) map[string]interfa
 	}
 	out := m{"counters": ctr, "status": st, "groups": groups, "tmeta": tm, "mmeta": mmeta, "svc": sv, "chains": ch, "relay": relay, "rules": rules,
 		"rlist": rlist, "nlist": nlist, "rall": rall}
+	// the router's view: what every pier is sent for this block (live feed) and gets for this height (query)
+	route, routeErr := []m{}, ""
+	if res != nil && res.Block != nil {
+		ps := map[string]bool{contracts.DEFAULT_UNION_PIER_ID: true, n.BxhID(): true}
+		for _, c := range r.plan.allChains() {
+			ps[c] = true
+		}
+		if res.Meta != nil {
+			for k := range res.Meta.Counter {
+				ps[k] = true
+			}
+			for k := range res.Meta.TimeoutCounter {
+				ps[k] = true
+			}
+			for k := range res.Meta.MultiTxCounter {
+				ps[k] = true
+			}
+		}
+		piers := []string{}
+		for k := range ps {
+			piers = append(piers, k)
+		}
+		sort.Strings(piers)
+		live, query, err := n.Route(res, piers)
+		if err != nil {
+			routeErr = err.Error()
+		} else {
+			for _, p := range piers {
+				route = append(route, m{"pier": p, "live": live[p], "query": query[p]})
+			}
+		}
+	}
+	out["route"], out["routeErr"] = route, routeErr
 	if r.govMode {
 		props := []m{}
 		for _, pid := range r.pids {
